@@ -101,6 +101,18 @@ func (g *FnGen) doCall(ci ssa.CallInstruction, v ssa.Value) {
 		}
 	}
 
+	if g.parent == nil && g.C != nil {
+		cn := name
+		if cn == "" {
+			cn = "dynamic"
+		}
+		for _, c := range g.C.MustCall {
+			if c == cn {
+				key := mustCallKey(c)
+				g.st[key] = g.def("called", sortBool, or(not(guard), "true"))
+			}
+		}
+	}
 	if g.parent == nil && g.C != nil && g.C.Forbids[name] {
 		g.oblige("assert", site+"/forbidden-call", guard, "false", "the contract forbids a (reachable) call of "+name+" in this function", ci.Pos())
 	}
@@ -971,7 +983,7 @@ func (g *FnGen) finish() {
 		g.st = r.st
 		g.checkTypeInvsAtReturn(k, r)
 	}
-	if g.C != nil && len(g.C.ReturnAsserts) > 0 {
+	if g.C != nil && (len(g.C.ReturnAsserts) > 0 || len(g.C.MustCall) > 0) {
 		g.checkReturnAsserts()
 	}
 	g.checkInterfaceConformance()
@@ -1249,6 +1261,13 @@ func (g *FnGen) pureResultMem(ct *Contract, env map[string]Val, name string, i i
 func (g *FnGen) checkReturnAsserts() {
 	sig := g.fn.Signature
 	applied := map[string]int{}
+	for k, r := range g.rets {
+		for _, c := range g.C.MustCall {
+			if t, ok := r.st[mustCallKey(c)]; ok {
+				g.oblige("assert", fmt.Sprintf("return:calls:%s@ret%d", c, k+1), r.guard, t, "every normal return is preceded by a call of "+c, r.pos)
+			}
+		}
+	}
 	for k, r := range g.rets {
 		env := map[string]Val{}
 		for n, v := range g.env {
